@@ -40,7 +40,8 @@ def run(chk):
                     "harness/props/C10.py: the property predicate is evaluated directly on the implementation "
                     "(transform the arguments, call again, compare within 1e-9 relative to max(1,|value|))",
                     "purity is a run-time observation: argument arrays compared bit-for-bit before/after, repeated calls compared exactly"]
-    chk.assumptions += ["tie-free continuous samples for every estimator; count samples for the Gaussian and Poisson estimators",
+    chk.assumptions += ["tie-free continuous samples for every estimator; count samples for the Gaussian and Poisson estimators; "
+                        "joint correlation matrix of the sample has condition number <= 1e5 (rounding is amplified by it)",
                         "known finding K2: the CONDITIONAL Poisson estimator is not symmetric under X/Y exchange nor under reordering of "
                         "Z's columns (matched on estimator, path and transformation only; row order and the unconditional path stay checked)"]
     quick = chk.tier == "quick"
@@ -111,6 +112,13 @@ def run(chk):
                     # its shift law is C12's subject, at C12's tolerance.)
                     W = W * 10.0 ** rng.uniform(-1, 1, (1, d)) + np.sign(rng.normal(size=(1, d))) * 10.0 ** rng.uniform(3, 6, (1, d))
                     chk.count(f"{name}.large_offset")
+            # "up to rounding": near-collinear samples amplify rounding by the condition number of the joint correlation matrix
+            # (a Gaussian MI of 9.85 nats means 1 - r^2 = 3e-9); such samples are outside what 1e-9 can decide (cf. C08's quantifier)
+            with np.errstate(all="ignore"):
+                cn = np.linalg.cond(np.corrcoef(W.T)) if W.shape[1] > 1 and np.all(W.std(axis=0) > 0) else 1.0
+            if not np.isfinite(cn) or cn > 1e5:
+                chk.count("skipped.ill_conditioned_sample")
+                continue
             X, Y, Z = W[:, :kx].copy(), W[:, kx:kx + ky].copy(), (W[:, kx + ky:].copy() if cond else None)
             if counts and (np.any(X.std(axis=0) == 0) or np.any(Y.std(axis=0) == 0) or (cond and np.any(Z.std(axis=0) == 0))):
                 continue
@@ -205,6 +213,9 @@ def run(chk):
         kz = 2 if cond else 0
         d = kx + ky + kz
         W = rng.normal(size=(N, d)) @ (np.eye(d) + 0.5 * rng.normal(size=(d, d)))
+        if np.linalg.cond(np.corrcoef(W.T)) > 1e5:
+            chk.count("skipped.ill_conditioned_sample")
+            continue
         X, Y, Z = W[:, :kx].copy(), W[:, kx:kx + ky].copy(), (W[:, kx + ky:].copy() if cond else None)
         s_ = {"metric": "euclidean", "k": int(rng.integers(1, 6))} if name == "knn" else {}
         v0 = call(name, "direct", X, Y, Z, s_)
